@@ -1,1 +1,2 @@
 import Props.C15
+import Props.C12
